@@ -63,7 +63,11 @@ namespace Pistache::Tcp
         Async::Promise<rusage> load()
         {
             return Async::Promise<rusage>([=](Async::Deferred<rusage> deferred) {
-                loadRequest_ = std::move(deferred);
+                {
+                    // (asked from any thread, answered by the worker; several may be in flight)
+                    Guard guard(loadLock);
+                    loadRequests_.push_back(std::move(deferred));
+                }
                 notifier.notify();
             });
         }
@@ -236,7 +240,8 @@ namespace Pistache::Tcp
 
         PollableQueue<PeerEntry> peersQueue;
 
-        Async::Deferred<rusage> loadRequest_;
+        std::vector<Async::Deferred<rusage>> loadRequests_;
+        Lock loadLock;
         NotifyFd notifier;
 
         std::shared_ptr<Tcp::Handler> handler_;
